@@ -216,7 +216,7 @@ Step ==
 
 Done == phase = "done" /\ UNCHANGED vars
 
-Next == (\E i \in Instrs : AddInstr(i) \/ AppendBad(i)) \/ (\E r \in Returns : Seal(r)) \/ Step \/ Done
+Next == (\E i \in Instrs : AddInstr(i) \/ AppendBad(i)) \/ (\E r \in Returns : Seal(r)) \/ Step
 Spec == Init /\ [][Next]_vars /\ WF_vars(Step)
 
 (***************************************************************************)
